@@ -17,6 +17,8 @@ import time
 import traceback
 
 VERIF = os.path.dirname(os.path.dirname(os.path.abspath(__file__)))
+# runs against a deliberately changed /repo (tools/evalseed.sh, tools/seedtest.sh) keep their evidence apart
+EVDIR = os.environ.get('VERIF_EVIDENCE_DIR') or os.path.join(VERIF, 'evidence')
 
 
 class Ob:
@@ -204,7 +206,7 @@ def run_property(prop, tier, only=None, jobs=None):
         faults.append(({'ob': 'conformance', 'fixed': {}}, f'conformance mismatch: {m}'))
     # ---- report ----
     os.makedirs(os.path.join(VERIF, 'replays'), exist_ok=True)
-    os.makedirs(os.path.join(VERIF, 'evidence'), exist_ok=True)
+    os.makedirs(EVDIR, exist_ok=True)
     seen_known = set()
     for d, region, text in known:
         if region in seen_known:
@@ -313,7 +315,7 @@ def write_evidence(prop, tier, seed, mod, obs, results, discharged, violations, 
         'wall_s': round(wall, 2),
         'violations': len(violations),
     }
-    with open(os.path.join(VERIF, 'evidence', f'{prop}.json'), 'w') as f:
+    with open(os.path.join(EVDIR, f'{prop}.json'), 'w') as f:
         json.dump(ev, f, indent=1, default=str)
 
 
